@@ -23,3 +23,5 @@ for id in C07 C01 C02; do $E $id rename-types-locals generator/types.go 's/\bsch
 for id in C10 C11 C08; do $E $id rename-support-locals generator/support.go 's/\bjsonb\b/origJSON/g' 's/\bflatjsonb\b/flatJSON/g' 's/\bgenOps\b/planned/g' 's/\broutes\b/taken/g'; done
 for id in C19; do $E $id rename-spec-locals cmd/swagger/commands/generate/spec.go 's/\bb\b/raw/g' 's/\bswspec\b/scanned/g'; done
 for id in C19; do $E $id rename-expand-locals cmd/swagger/commands/expand.go 's/\bdata\b/ordered/g' 's/\bbb\b/rendered/g'; done
+# re-indentation of template text (generated code is gofmt'ed: whitespace-only change)
+for spec in "C03:generator/templates/server/parameter.gotmpl" "C04:generator/templates/client/parameter.gotmpl" "C04:generator/templates/client/response.gotmpl" "C05:generator/templates/serializers/additionalpropertiesserializer.gotmpl" "C05:generator/templates/serializers/tupleserializer.gotmpl" "C06:generator/templates/server/builder.gotmpl" "C06:generator/templates/server/operation.gotmpl" "C08:generator/templates/server/builder.gotmpl" "C09:generator/templates/server/operation.gotmpl" "C01:generator/templates/server/main.gotmpl" "C02:generator/templates/schemavalidator.gotmpl"; do id=${spec%%:*}; f=${spec#*:}; n=$(basename $f .gotmpl); $E $id reindent-$n $f 's/^  \( *[^ {]\)/\t\1/' 's/^    \( *[^ {]\)/\t\t\1/' 's/ *$//'; done
